@@ -183,6 +183,18 @@ def check_compile_loop(ctx: Ctx, ic):
     if maps:
         pr = q.arg(maps[0], 2, "promote")
         ctx.check(pr is not None, "MP-map-qubit", fi, "promotion flag given", norm(pr) if pr is not None else "", "no promote flag", maps[0])
+        if pr is not None:
+            # every symbol except a rewriter temporary (`__x`) becomes a named qubit: an unpromoted qubit is scratch,
+            # and the per-expression uncompute erases and recycles scratch that served as an operand
+            v = q.value_at(loop.body, q.enclosing_stmt(fi, maps[0]), pr) or pr
+            t = norm(v).replace(" ", "").replace('"', "'")
+            exact = t in (f"not{sym}.name.startswith('__')", f"{sym}.name[:2]!='__'", f"{sym}.name[0:2]!='__'")
+            if exact:
+                ctx.ok("MP-map-qubit", fi, "every symbol except a `__` temporary is promoted", t, maps[0])
+            elif f"{sym}.name.startswith('__')" in t and any(isinstance(n, ast.BoolOp) for n in ast.walk(v)):
+                ctx.fail("MP-map-qubit", fi, "every symbol except a `__` temporary is promoted", f"promote = `{norm(v)}`: symbols other than rewriter temporaries are left unpromoted too; their qubit stays in the ancilla set, so the first And/Or that uses the variable marks it and the per-expression uncompute erases and recycles it while the variable is still live", maps[0])
+            else:
+                ctx.undecided(fi.short, f"promotion flag `{norm(v)[:80]}` is not `not <symbol>.name.startswith('__')`")
     # cache invalidation
     unc = [c for c in q.calls(loop) if dotted(c.func) == "qc.uncompute"]
     if not unc:
